@@ -275,6 +275,12 @@ func (tp *ethTxPool) CheckAndAdd(tx *etypes.Transaction, rawTx types.Tx) error {
 		return fmt.Errorf("nonce(%d) different with getNonce(%d)", tx.Nonce(), currentNonce)
 	}
 
+	// a nonce that is already pending for this account cannot be queued a second time:
+	// the waiting queue would hold a duplicate (account, nonce) that can never be promoted
+	if p := tp.pending[from]; p != nil && p.Get(tx.Nonce()) != nil {
+		return errors.New("tx nonce already exist in cache")
+	}
+
 	if err := tp.addWaiting(tx, from); err != nil {
 		return err
 	}
